@@ -335,6 +335,9 @@ func AsObjects(m map[string]any) (map[string]Object, error) {
 	for _, k := range keys {
 		v := m[k]
 		switch v := v.(type) {
+		case nil:
+			// An untyped nil has no Go type to pick a converter by
+			result[k] = Nil
 		case Object:
 			result[k] = v
 		default:
@@ -370,6 +373,9 @@ type TypeConverter interface {
 // NewTypeConverter returns a TypeConverter for the given Go kind and type.
 // Converters are cached internally for reuse.
 func NewTypeConverter(typ reflect.Type) (TypeConverter, error) {
+	if typ == nil {
+		return nil, errz.TypeErrorf("type error: unsupported type: nil")
+	}
 	goTypeMutex.Lock()
 	defer goTypeMutex.Unlock()
 
@@ -909,7 +915,8 @@ func (c *MapConverter) From(obj interface{}) (Object, error) {
 		if err != nil {
 			return nil, err
 		}
-		o[key.Interface().(string)] = conv
+		// The key kind is string, but its type may be a named string type
+		o[key.String()] = conv
 	}
 	return NewMap(o), nil
 }
